@@ -17,6 +17,8 @@
    `raw` -- one per stored profile: (projected tree array, functions array) -- that are equal collapse into one BEFORE the
    ARRAY JOIN / GROUP BY sum.  PlanMergeTraces does not set it today and [stmt_ok] refuses it; the evaluator interprets
    it, so that a statement carrying it is judged on databases with repeated profiles (it loses their weight).
+   Likewise interpreted and refused: DISTINCT in pre_joined (equal tree elements of different profiles collapse), max / min /
+   any in place of sum, a window written with > or <= (a profile on the boundary is lost / read on both sides of a diff).
    Executable definitions only. *)
 From Coq Require Import List NArith ZArith Bool String Ascii.
 From Qryn Require Import model.Pprof model.ProfTree.
@@ -27,7 +29,9 @@ Inductive tsel :=
 | TField (n : N)                         (* x.n *)
 | TFirst (ty : nat) (arr kf n : N)       (* (arrayFirst(y -> y.kf == '<type ty>', x.arr) as af).n *)
 | TAf (n : N).                           (* af.n *)
-Inductive gsel := GKey (n : N) | GSum (n : N).      (* rtree.n | sum(rtree.n) *)
+Inductive afn := AMax | AMin | AAny.
+Inductive gsel := GKey (n : N) | GSum (n : N)       (* rtree.n | sum(rtree.n) *)
+                | GAgg (f : afn) (n : N).            (* max(rtree.n) | min(rtree.n) | any(rtree.n): refused by stmt_ok, evaluated *)
 Inductive aggfn := GroupArray | GroupUniqArrayArray.
 
 Record merge_stmt := {
@@ -36,7 +40,9 @@ Record merge_stmt := {
   ms_proj : list tsel; ms_from : Z; ms_to : Z;
   ms_out : list gsel; ms_group : list N; ms_order : list N; ms_limit : Z;
   ms_tree_agg : aggfn; ms_fn_agg : aggfn;
-  ms_distinct : bool }.                                          (* raw is a SELECT DISTINCT *)
+  ms_distinct : bool;                                            (* raw is a SELECT DISTINCT *)
+  ms_distinct_pre : bool;                                        (* pre_joined is a SELECT DISTINCT *)
+  ms_from_strict : bool; ms_to_incl : bool }.                    (* the window is written with > / <= instead of >= / < *)
 
 (* ------------------------------------------------------------------ rendering *)
 Open Scope string_scope.
@@ -63,19 +69,22 @@ Definition render_tsel (types : list string) (t : tsel) : string :=
   | TFirst ty arr kf n => "(arrayFirst(y -> y." ++ str_of_N kf ++ " == '" ++ nth ty types "?" ++ "', x." ++ str_of_N arr ++ ") as af)." ++ str_of_N n
   | TAf n => "af." ++ str_of_N n
   end.
+Definition render_afn (f : afn) : string := match f with AMax => "max" | AMin => "min" | AAny => "any" end.
 Definition render_gsel (g : gsel) : string :=
   match g with
   | GKey n => "rtree." ++ str_of_N n
   | GSum n => "sum(rtree." ++ str_of_N n ++ ")"
+  | GAgg f n => render_afn f ++ "(rtree." ++ str_of_N n ++ ")"
   end.
 Definition render_agg (a : aggfn) : string :=
   match a with GroupArray => "groupArray" | GroupUniqArrayArray => "groupUniqArrayArray" end.
 
 Definition render_stmt (s : merge_stmt) : string :=
   "WITH fp as ( " ++ ms_fp s ++ "),raw as ( SELECT " ++ (if ms_distinct s then " DISTINCT " else "") ++ "arrayMap(x -> (" ++ join ", " (map (render_tsel (ms_types s)) (ms_proj s)) ++
-  "), tree) as tree, functions FROM " ++ ms_table s ++ " WHERE ((timestamp_ns) >= (" ++ str_of_Z (ms_from s) ++
-  ")) and ((timestamp_ns) < (" ++ str_of_Z (ms_to s) ++ ")) and (fingerprint IN (fp)) and (" ++ ms_matchers s ++
-  ")),pre_joined as ( SELECT rtree FROM raw array JOIN raw.tree as rtree ),joined as ( SELECT (" ++
+  "), tree) as tree, functions FROM " ++ ms_table s ++ " WHERE ((timestamp_ns) " ++ (if ms_from_strict s then ">" else ">=") ++ " (" ++ str_of_Z (ms_from s) ++
+  ")) and ((timestamp_ns) " ++ (if ms_to_incl s then "<=" else "<") ++ " (" ++ str_of_Z (ms_to s) ++ ")) and (fingerprint IN (fp)) and (" ++ ms_matchers s ++
+  ")),pre_joined as ( SELECT " ++ (if ms_distinct_pre s then " DISTINCT " else "") ++
+  "rtree FROM raw array JOIN raw.tree as rtree ),joined as ( SELECT (" ++
   join ", " (map render_gsel (ms_out s)) ++ ") as tree FROM pre_joined GROUP BY " ++
   join ", " (map (fun n => "rtree." ++ str_of_N n) (ms_group s)) ++ " ORDER BY " ++
   join ", " (map (fun n => "rtree." ++ str_of_N n) (ms_order s)) ++ " LIMIT " ++ str_of_Z (ms_limit s) ++
@@ -135,10 +144,20 @@ Fixpoint add_to_group (gs : list (list val * list (list val))) (k : list val) (t
 
 Definition sum_field (ms : list (list val)) (n : N) : val :=
   fold_left (fun acc t => match acc, field t n with VI a, VI b => VI (wrap64 (a + b)) | _, _ => VErr end) ms (VI 0).
+(* max / min / any over the members of a group (signed fields; any = the first member's) *)
+Definition agg_field (f : afn) (ms : list (list val)) (n : N) : val :=
+  match ms with
+  | [] => VErr
+  | m :: r => fold_left (fun acc t => match acc, field t n with
+                                      | VI a, VI b => VI (match f with AMax => Z.max a b | AMin => Z.min a b | AAny => a end)
+                                      | _, _ => VErr
+                                      end) r (match field m n with VI a => VI a | _ => VErr end)
+  end.
 Definition eval_gsel (ms : list (list val)) (g : gsel) : val :=
   match g with
   | GKey n => field (hd [] ms) n
   | GSum n => sum_field ms n
+  | GAgg f n => agg_field f ms n
   end.
 
 (* ORDER BY one key (stable insertion sort on an unsigned field), LIMIT *)
@@ -184,15 +203,20 @@ Fixpoint distinct_by {A} (e : A -> A -> bool) (l : list A) : list A :=
   | [] => []
   | x :: r => x :: filter (fun y => negb (e x y)) (distinct_by e r)
   end.
+(* the time window as the statement writes it *)
+Definition in_win (s : merge_stmt) (p : sprof) : bool :=
+  (if ms_from_strict s then Z.ltb (ms_from s) (sp_ts p) else Z.leb (ms_from s) (sp_ts p)) &&
+  (if ms_to_incl s then Z.leb (sp_ts p) (ms_to s) else Z.ltb (sp_ts p) (ms_to s)).
 Definition raw_of (toks : list Z) (proj : list tsel) (p : sprof) : raw_row :=
   (map (fun x => eval_proj toks x None proj) (sp_tree p), sp_funcs p).
 
 (* the rows of `_tree` (None: the statement does not produce 5-tuples of the expected types, or uses an aggregate
    other than groupArray for the tree) *)
 Definition eval_merge_stmt (toks : list Z) (s : merge_stmt) (db : list sprof) : option (list row) :=
-  let window := filter (fun p => Z.leb (ms_from s) (sp_ts p) && Z.ltb (sp_ts p) (ms_to s)) db in
+  let window := filter (in_win s) db in
   let raw := map (raw_of toks (ms_proj s)) window in
-  let pre := flat_map fst (if ms_distinct s then distinct_by raw_eqb raw else raw) in
+  let joined := flat_map fst (if ms_distinct s then distinct_by raw_eqb raw else raw) in
+  let pre := if ms_distinct_pre s then distinct_by key_eq joined else joined in
   let groups := fold_left (fun gs t => add_to_group gs (map (field t) (ms_group s)) t) pre [] in
   let sorted := match ms_order s with
                 | [n] => fold_left (fun acc g => insert_sorted n g acc) groups []
@@ -216,13 +240,15 @@ Definition gsel_eqb (a b : gsel) : bool :=
   match a, b with
   | GKey n, GKey m => N.eqb n m
   | GSum n, GSum m => N.eqb n m
+  | GAgg f n, GAgg g m => match f, g with AMax, AMax | AMin, AMin | AAny, AAny => N.eqb n m | _, _ => false end
   | _, _ => false
   end.
 Definition stmt_ok (ty : nat) (s : merge_stmt) : bool :=
   leqb tsel_eqb (ms_proj s) [TField 1; TField 2; TField 3; TFirst ty 4 1 2; TAf 3] &&
   leqb gsel_eqb (ms_out s) [GKey 1; GKey 2; GKey 3; GSum 4; GSum 5] &&
   leqb N.eqb (ms_group s) [1; 2; 3]%N && leqb N.eqb (ms_order s) [1%N] &&
-  Z.eqb (ms_limit s) the_limit && negb (ms_distinct s) &&
+  Z.eqb (ms_limit s) the_limit && negb (ms_distinct s) && negb (ms_distinct_pre s) &&
+  negb (ms_from_strict s) && negb (ms_to_incl s) &&
   match ms_tree_agg s, ms_fn_agg s with GroupArray, GroupUniqArrayArray => true | _, _ => false end.
 
 (* ------------------------------------------------------------------ specification side
